@@ -89,6 +89,7 @@ type Ctx struct {
 	eqMemo            map[*Term]*Term
 	srcMemo           map[*Term][]*Term
 	numMemo           map[string]numInfo
+	syncMaps          map[*Value]*Map
 	mapOrderMax       int
 	noTrack           int
 	preemptEverywhere bool
